@@ -11,7 +11,7 @@
    Dict, Relation, UnionSet, GenericSet, True/Empty) are tied to this semantics
    by the correspondence run, which compares the denotation of every
    implementation result with [run_data]. *)
-From Arrai Require Import Base.Val Spec.SetAlg Eval.Interp Proofs.ValOrder Proofs.SetAlgP.
+From Arrai Require Import Base.Val Spec.SetAlg Eval.Interp Proofs.ValOrder Proofs.SetAlgP Sys.Heap Rep.SeqRep.
 
 Theorem C01_order_is_total_and_eq_is_identity :
   forall a b c, vcmp a a = Eq /\ (vcmp a b = Eq -> a = b) /\
@@ -98,3 +98,25 @@ Example C01_probe :
                                         (EDictE [(ELit (vint 1), ELit (vint 3))])))
   = Ok (vint 2).
 Proof. vm_compute. reflexivity. Qed.
+
+(* Representation level: the slice + offset + holes representation of strings (the cell functions
+   the heap model of C03 runs against rel/value_set_str.go) refines with / without / membership of
+   the denoted set of (@: i, @char: c) members, for every content, offset and position. *)
+Theorem C01_string_with_refines :
+  forall c off at_ char, c <> [] -> 0 <= char ->
+  (get off c at_ = None \/ get off c at_ = Some char) ->
+  let (c', off') := with_cells c off at_ char in
+  forall j, get off' c' j = if j =? at_ then Some char else get off c j.
+Proof. exact with_cells_lookup. Qed.
+Print Assumptions C01_string_with_refines.
+Theorem C01_string_without_refines :
+  forall c off at_ char,
+  let (c', off') := without_cells c off at_ char in
+  forall j, get off' c' j =
+            if (j =? at_) && (match get off c at_ with Some y => y =? char | None => false end)
+            then None else get off c j.
+Proof. exact without_cells_lookup. Qed.
+Print Assumptions C01_string_without_refines.
+Theorem C01_string_has_is_membership : forall off c i x, has off c i x = true <-> get off c i = Some x.
+Proof. exact has_spec. Qed.
+Print Assumptions C01_string_has_is_membership.
